@@ -48,7 +48,8 @@ def run(ctx, rep):
     rep.ob("K1", not bad, None, None, loc="selfies/grammar_rules.py", construct="%d ring / branch / index symbols" % len(fin),
            how="each is a single bracketed token", witness=None if not bad else "malformed symbol(s) %s" % bad[:3], key="table-tokens")
     # assembly in encoder()
-    encf = ctx.api("encoder")
+    from rules.shared import core_of
+    encf = core_of(ctx, "encoder", "smiles_to_mol")
     joins = [n for n in own_nodes(encf.node) if isinstance(n, ast.Call) and isinstance(n.func, ast.Attribute) and n.func.attr == "join"
              and isinstance(n.func.value, ast.Constant)]
     seps = sorted(j.func.value.value for j in joins)
